@@ -151,3 +151,474 @@ Proof.
   - cbn [print_opt_tag app]. unfold next_with_opt_tag. cbn [next_or_err pbind].
     unfold T at 1. cbn [eq_separator]. reflexivity.
 Qed.
+
+(* ---------- parse-after-print: SIZE ---------- *)
+
+Lemma lit_eqb_spec : forall a b : N, lor_n_eqb (Lit a) (Lit b) = (a =? b).
+Proof. reflexivity. Qed.
+
+Lemma size_bound_denotes : forall kw0 kw skip s b,
+  65 <= kw0 ->
+  (forall r, b = Ref r -> eq_ignore_case r (kw0 :: kw) = false) ->
+  denotes_n s b ->
+  size_bound (kw0 :: kw) skip (T s) = if lor_n_eqb (Lit skip) b then None else Some b.
+Proof.
+  intros kw0 kw skip s b Hk Hr H. unfold size_bound, T. cbn [tok_text]. destruct b as [n | r]; cbn [denotes_n] in H.
+  - rewrite (numeral_not_keyword s n kw0 kw H Hk). rewrite H. reflexivity.
+  - destruct H as [-> [Hp _]]. rewrite (Hr r eq_refl). rewrite Hp. reflexivity.
+Qed.
+
+Lemma opt_default_bound : forall skip b,
+  opt_default (if lor_n_eqb (Lit skip) b then None else Some b) (Lit skip) = b.
+Proof.
+  intros skip [n | r]; cbn [lor_n_eqb].
+  - destruct (skip =? n) eqn:E; cbn [opt_default]; [apply N.eqb_eq in E; subst; reflexivity | reflexivity].
+  - reflexivity.
+Qed.
+
+Lemma kw_min : KW "MIN" = 77 :: s2n "IN". Proof. reflexivity. Qed.
+Lemma kw_max : KW "MAX" = 77 :: s2n "AX". Proof. reflexivity. Qed.
+
+Lemma denotes_min : forall s b, denotes_n s b ->
+  size_bound (KW "MIN") 0 (T s) = if lor_n_eqb (Lit 0) b then None else Some b.
+Proof.
+  intros s b H. rewrite kw_min. apply size_bound_denotes; [lia | | exact H].
+  intros r ->. cbn [denotes_n] in H. rewrite <- kw_min. tauto.
+Qed.
+
+Lemma denotes_max : forall s b, denotes_n s b ->
+  size_bound (KW "MAX") I64_MAX_N (T s) = if lor_n_eqb (Lit I64_MAX_N) b then None else Some b.
+Proof.
+  intros s b H. rewrite kw_max. apply size_bound_denotes; [lia | | exact H].
+  intros r ->. cbn [denotes_n] in H. rewrite <- kw_max. tauto.
+Qed.
+
+Lemma three_dots_ok : forall rest, three_dots (P C_DOT :: P C_DOT :: P C_DOT :: rest) = POk rest.
+Proof. reflexivity. Qed.
+
+Theorem read_size_print : forall s sa sb rest,
+  size_wf s sa sb ->
+  read_size (print_size s sa sb ++ rest) = POk (s, rest).
+Proof.
+  intros s sa sb rest Hwf. destruct s as [| a e | a b e]; cbn [size_wf] in Hwf; [contradiction | |].
+  - (* SIZE(a) / SIZE(a, ...) *)
+    unfold read_size. cbn [print_size app].
+    replace (next_text_eq_ic_or_err (KW "SIZE") (T (KW "SIZE") :: P C_LPAREN :: T sa :: (ext_toks e ++ [P C_RPAREN]) ++ rest))
+      with (POk (T (KW "SIZE"), P C_LPAREN :: T sa :: (ext_toks e ++ [P C_RPAREN]) ++ rest))
+      by (unfold next_text_eq_ic_or_err; replace (eq_text_ic (T (KW "SIZE")) (KW "SIZE")) with true by (vm_compute; reflexivity); reflexivity).
+    cbn [pbind]. unfold next_sep_or_err at 1. unfold next_if_sep at 1.
+    replace (eq_separator (P C_LPAREN) C_LPAREN) with true by reflexivity. cbn [pbind next_or_err].
+    rewrite (denotes_min sa a Hwf). rewrite opt_default_bound.
+    destruct e; cbn [ext_toks app].
+    + replace (peek_is_sep C_DOT (P C_COMMA :: P C_DOT :: P C_DOT :: P C_DOT :: P C_RPAREN :: rest)) with false by reflexivity.
+      cbn [negb next_or_err pbind].
+      replace (eq_separator (P C_COMMA) C_RPAREN) with false by reflexivity.
+      replace (eq_separator (P C_COMMA) C_COMMA) with true by reflexivity.
+      rewrite three_dots_ok. cbn [pbind]. reflexivity.
+    + replace (peek_is_sep C_DOT (P C_RPAREN :: rest)) with false by reflexivity.
+      cbn [negb next_or_err pbind].
+      replace (eq_separator (P C_RPAREN) C_RPAREN) with true by reflexivity. reflexivity.
+  - (* SIZE(a..b) / SIZE(a..b, ...) *)
+    destruct Hwf as [Ha [Hb [Hne Hq]]].
+    unfold read_size. cbn [print_size app].
+    replace (next_text_eq_ic_or_err (KW "SIZE")
+               (T (KW "SIZE") :: P C_LPAREN :: T sa :: P C_DOT :: P C_DOT :: T sb :: (ext_toks e ++ [P C_RPAREN]) ++ rest))
+      with (POk (T (KW "SIZE"), P C_LPAREN :: T sa :: P C_DOT :: P C_DOT :: T sb :: (ext_toks e ++ [P C_RPAREN]) ++ rest))
+      by (unfold next_text_eq_ic_or_err; replace (eq_text_ic (T (KW "SIZE")) (KW "SIZE")) with true by (vm_compute; reflexivity); reflexivity).
+    cbn [pbind]. unfold next_sep_or_err at 1. unfold next_if_sep at 1.
+    replace (eq_separator (P C_LPAREN) C_LPAREN) with true by reflexivity. cbn [pbind next_or_err].
+    rewrite (denotes_min sa a Ha).
+    replace (peek_is_sep C_DOT (P C_DOT :: P C_DOT :: T sb :: (ext_toks e ++ [P C_RPAREN]) ++ rest)) with true by reflexivity.
+    cbn [negb]. unfold next_sep_or_err at 1. unfold next_if_sep at 1.
+    replace (eq_separator (P C_DOT) C_DOT) with true by reflexivity. cbn [pbind].
+    unfold next_sep_or_err at 1. unfold next_if_sep at 1.
+    replace (eq_separator (P C_DOT) C_DOT) with true by reflexivity. cbn [pbind next_or_err].
+    rewrite (denotes_max sb b Hb).
+    assert (Hnot : (if lor_n_eqb (Lit 0) a then None else Some a) = None ->
+                   (if lor_n_eqb (Lit I64_MAX_N) b then None else Some b) = None -> False).
+    { intros H1 H2. apply Hq. split.
+      - destruct a as [n | r]; cbn [lor_n_eqb] in H1; [|discriminate].
+        destruct (0 =? n) eqn:E; [apply N.eqb_eq in E; subst; reflexivity | discriminate].
+      - destruct b as [n | r]; cbn [lor_n_eqb] in H2; [|discriminate].
+        destruct (I64_MAX_N =? n) eqn:E; [apply N.eqb_eq in E; subst; reflexivity | discriminate]. }
+    pose proof (opt_default_bound 0 a) as Da. pose proof (opt_default_bound I64_MAX_N b) as Db.
+    destruct (if lor_n_eqb (Lit 0) a then None else Some a) as [sa'|] eqn:Ea;
+      destruct (if lor_n_eqb (Lit I64_MAX_N) b then None else Some b) as [sb'|] eqn:Eb;
+      try (exfalso; apply Hnot; reflexivity);
+      rewrite Da, Db;
+      (destruct e; cbn [ext_toks app];
+       [ replace (next_is_sep C_COMMA (P C_COMMA :: P C_DOT :: P C_DOT :: P C_DOT :: P C_RPAREN :: rest))
+           with (true, P C_DOT :: P C_DOT :: P C_DOT :: P C_RPAREN :: rest) by reflexivity;
+         rewrite three_dots_ok; cbn [pbind]
+       | replace (next_is_sep C_COMMA (P C_RPAREN :: rest)) with (false, P C_RPAREN :: rest) by reflexivity;
+         cbn [pbind] ];
+       unfold next_sep_or_err, next_if_sep;
+       replace (eq_separator (P C_RPAREN) C_RPAREN) with true by reflexivity; cbn [pbind];
+       rewrite Hne; reflexivity).
+Qed.
+
+(* ---------- parse-after-print: INTEGER ranges ---------- *)
+
+Lemma i64_numeral_head : forall s z, parse_i64 s = Some z -> exists c r, s = c :: r /\ c <= 57.
+Proof.
+  intros s z H. destruct s as [|c r]; [discriminate|]. exists c, r. split; [reflexivity|].
+  unfold parse_i64, strip_plus in H.
+  destruct (c =? 45) eqn:Hm; [apply N.eqb_eq in Hm; lia|].
+  destruct (c =? 43) eqn:Hp; [apply N.eqb_eq in Hp; lia|].
+  cbn [digits_val] in H.
+  destruct (is_ascii_digit c) eqn:Hd; [|discriminate].
+  unfold is_ascii_digit in Hd. apply andb_true_iff in Hd. destruct Hd as [_ Hd]. apply N.leb_le in Hd. exact Hd.
+Qed.
+
+Lemma i64_numeral_not_keyword : forall s z k kw, parse_i64 s = Some z -> 65 <= k ->
+  eq_ignore_case s (k :: kw) = false.
+Proof.
+  intros s z k kw H Hk. destruct (i64_numeral_head s z H) as [c [r [-> Hc]]].
+  cbn [eq_ignore_case]. apply andb_false_iff. left. apply N.eqb_neq.
+  unfold to_ascii_lower.
+  assert (E1 : (65 <=? c) = false) by (apply N.leb_gt; lia). rewrite E1. cbn [andb].
+  destruct ((65 <=? k) && (k <=? 90)); lia.
+Qed.
+
+Lemma range_bound_denotes : forall kw0 kw s b,
+  65 <= kw0 -> denotes_z (kw0 :: kw) s b -> range_bound (kw0 :: kw) (T s) = b.
+Proof.
+  intros kw0 kw s b Hk H. unfold range_bound, T. cbn [tok_text].
+  destruct b as [[z | r]|]; cbn [denotes_z] in H.
+  - rewrite (i64_numeral_not_keyword s z kw0 kw H Hk). rewrite H. reflexivity.
+  - destruct H as [-> [Hp Hn]]. rewrite Hn, Hp. reflexivity.
+  - subst s. replace (eq_ignore_case (kw0 :: kw) (kw0 :: kw)) with true; [reflexivity|].
+    symmetry. generalize (kw0 :: kw). intros l. induction l as [|x l IH]; [reflexivity|].
+    cbn [eq_ignore_case]. rewrite N.eqb_refl. exact IH.
+Qed.
+
+Theorem read_integer_print_range : forall r sa sb rest,
+  range_wf r sa sb ->
+  read_integer (print_range r sa sb ++ rest) = POk (r, [], rest).
+Proof.
+  intros [[lo hi] e] sa sb rest Hwf. cbn [range_wf] in Hwf. destruct Hwf as [Ha [Hb [Hq1 Hq2]]].
+  unfold read_integer, maybe_read_constants. cbn [print_range app].
+  replace (next_is_sep C_LBRACE (P C_LPAREN :: T sa :: P C_DOT :: P C_DOT :: T sb :: (ext_toks e ++ [P C_RPAREN]) ++ rest))
+    with (false, P C_LPAREN :: T sa :: P C_DOT :: P C_DOT :: T sb :: (ext_toks e ++ [P C_RPAREN]) ++ rest) by reflexivity.
+  cbn [pbind].
+  replace (next_is_sep C_LPAREN (P C_LPAREN :: T sa :: P C_DOT :: P C_DOT :: T sb :: (ext_toks e ++ [P C_RPAREN]) ++ rest))
+    with (true, T sa :: P C_DOT :: P C_DOT :: T sb :: (ext_toks e ++ [P C_RPAREN]) ++ rest) by reflexivity.
+  cbn [next_or_err pbind]. unfold next_sep_or_err at 1. unfold next_if_sep at 1.
+  replace (eq_separator (P C_DOT) C_DOT) with true by reflexivity. cbn [pbind].
+  unfold next_sep_or_err at 1. unfold next_if_sep at 1.
+  replace (eq_separator (P C_DOT) C_DOT) with true by reflexivity. cbn [pbind next_or_err].
+  rewrite kw_min in Ha. rewrite kw_max in Hb.
+  rewrite kw_min, kw_max.
+  rewrite (range_bound_denotes 77 (s2n "IN") sa lo) by (try lia; exact Ha).
+  rewrite (range_bound_denotes 77 (s2n "AX") sb hi) by (try lia; exact Hb).
+  assert (Hres : forall r8 : toks,
+            match lo, hi with
+            | Some (Lit 0%Z), None => POk ((None, None, e), @nil (str * Z), r8)
+            | None, Some (Lit v) =>
+                if (v =? I64_MAX_Z)%Z then POk ((None, None, e), [], r8) else POk ((lo, hi, e), [], r8)
+            | _, _ => POk ((lo, hi, e), [], r8)
+            end = POk ((lo, hi, e), @nil (str * Z), r8)).
+  { intros r8. destruct lo as [[[|p|p] | r]|]; destruct hi as [[z' | r']|]; try reflexivity.
+    - exfalso. apply Hq1. split; reflexivity.
+    - destruct (z' =? I64_MAX_Z)%Z eqn:E; [|reflexivity]. apply Z.eqb_eq in E. subst z'.
+      exfalso. apply Hq2. split; reflexivity. }
+  destruct e; cbn [ext_toks app].
+  - replace (next_is_sep C_COMMA (P C_COMMA :: P C_DOT :: P C_DOT :: P C_DOT :: P C_RPAREN :: rest))
+      with (true, P C_DOT :: P C_DOT :: P C_DOT :: P C_RPAREN :: rest) by reflexivity.
+    rewrite three_dots_ok. cbn [pbind]. unfold next_sep_or_err, next_if_sep.
+    replace (eq_separator (P C_RPAREN) C_RPAREN) with true by reflexivity. cbn [pbind]. apply Hres.
+  - replace (next_is_sep C_COMMA (P C_RPAREN :: rest)) with (false, P C_RPAREN :: rest) by reflexivity.
+    cbn [pbind]. unfold next_sep_or_err, next_if_sep.
+    replace (eq_separator (P C_RPAREN) C_RPAREN) with true by reflexivity. cbn [pbind]. apply Hres.
+Qed.
+
+(* an unconstrained INTEGER consumes nothing when no "{" or "(" follows *)
+Theorem read_integer_unconstrained : forall rest,
+  peek_is_sep C_LBRACE rest = false -> peek_is_sep C_LPAREN rest = false ->
+  read_integer rest = POk ((None, None, false), [], rest).
+Proof.
+  intros rest H1 H2. unfold read_integer, maybe_read_constants, next_is_sep.
+  destruct rest as [|t r]; [reflexivity|].
+  cbn [peek_is_sep] in H1, H2. rewrite H1. cbn [pbind]. rewrite H2. reflexivity.
+Qed.
+
+(* ---------- parse-after-print: named numbers ---------- *)
+
+Section ConstantsProofs.
+  Variable V : Type.
+  Variable parser : token -> pres V.
+
+  Definition item_ok (it : str * str * V) : Prop := parser (T (snd (fst it))) = POk (snd it).
+
+  Lemma read_constant_item : forall it rest, item_ok it ->
+    read_constant V parser (print_item it ++ rest) = POk (fst (fst it), snd it, rest).
+  Proof.
+    intros [[name text] v] rest H. unfold item_ok in H. cbn [fst snd] in H.
+    unfold read_constant, print_item. cbn [fst snd app next_text_or_err T pbind].
+    unfold next_sep_or_err, next_if_sep.
+    replace (eq_separator (P C_LPAREN) C_LPAREN) with true by reflexivity. cbn [pbind next_or_err].
+    replace (eq_separator (P C_RPAREN) C_RPAREN) with true by reflexivity. cbn [pbind].
+    unfold T in *. rewrite H. reflexivity.
+  Qed.
+
+  Lemma read_constants_loop_print : forall its fuel acc rest,
+    its <> [] -> Forall item_ok its -> (length its <= fuel)%nat ->
+    read_constants_loop V parser fuel (print_items its ++ P C_RBRACE :: rest) acc
+    = POk ((rev acc ++ map item_value its)%list, rest).
+  Proof.
+    induction its as [|it its IH]; intros fuel acc rest Hne Hok Hf; [congruence|].
+    inversion Hok as [|? ? Hit Hrest]; subst.
+    destruct fuel as [|fuel]; [simpl in Hf; lia|].
+    destruct its as [|it2 its'].
+    - cbn [print_items read_constants_loop]. rewrite read_constant_item by exact Hit.
+      cbn [pbind app next_or_err].
+      replace (loop_ctrl (P C_RBRACE)) with (@POk bool false) by reflexivity. cbn [pbind].
+      cbn [rev map]. reflexivity.
+    - change (print_items (it :: it2 :: its')) with (print_item it ++ P C_COMMA :: print_items (it2 :: its')).
+      cbn [read_constants_loop]. rewrite <- app_assoc. rewrite read_constant_item by exact Hit.
+      cbn [pbind app next_or_err].
+      replace (loop_ctrl (P C_COMMA)) with (@POk bool true) by reflexivity. cbn [pbind].
+      rewrite IH; [| discriminate | exact Hrest | simpl in Hf |- *; lia].
+      cbn [rev map]. rewrite <- app_assoc. reflexivity.
+  Qed.
+
+  Lemma print_items_length : forall its : list (str * str * V), (length its <= length (print_items its))%nat.
+  Proof.
+    induction its as [|it its IH]; [simpl; lia|].
+    destruct its as [|it2 its']; [simpl; lia|].
+    change (print_items (it :: it2 :: its')) with (print_item it ++ P C_COMMA :: print_items (it2 :: its')).
+    rewrite app_length. cbn [length print_item] in *. lia.
+  Qed.
+
+  Theorem maybe_read_constants_print : forall its rest,
+    Forall item_ok its ->
+    (its = [] -> peek_is_sep C_LBRACE rest = false) ->
+    maybe_read_constants V parser (print_constants its ++ rest) = POk (map item_value its, rest).
+  Proof.
+    intros its rest Hok Hfollow. destruct its as [|it its'].
+    - cbn [print_constants app map]. unfold maybe_read_constants, next_is_sep.
+      specialize (Hfollow eq_refl). destruct rest as [|t r]; [reflexivity|].
+      cbn [peek_is_sep] in Hfollow. rewrite Hfollow. reflexivity.
+    - unfold print_constants, maybe_read_constants. cbn [app].
+      replace (next_is_sep C_LBRACE (P C_LBRACE :: (print_items (it :: its') ++ [P C_RBRACE]) ++ rest))
+        with (true, (print_items (it :: its') ++ [P C_RBRACE]) ++ rest) by reflexivity.
+      rewrite <- app_assoc. cbn [app].
+      rewrite read_constants_loop_print; [reflexivity | discriminate | exact Hok |].
+      rewrite app_length. pose proof (print_items_length (it :: its')). cbn [length] in *. lia.
+  Qed.
+End ConstantsProofs.
+
+(* INTEGER { named numbers } ( range ): named numbers and range together *)
+Theorem read_integer_print : forall (its : list (str * str * Z)) r sa sb rest,
+  Forall (item_ok Z constant_i64_parser) its ->
+  range_wf r sa sb ->
+  read_integer (print_constants its ++ print_range r sa sb ++ rest) = POk (r, map item_value its, rest).
+Proof.
+  intros its r sa sb rest Hok Hwf.
+  pose proof (read_integer_print_range r sa sb rest Hwf) as Hr.
+  unfold read_integer in *.
+  rewrite maybe_read_constants_print; [| exact Hok | intros _; destruct r as [[lo hi] e]; reflexivity].
+  cbn [pbind].
+  (* the rest of read_integer does not look at the constants: reuse the range theorem *)
+  unfold maybe_read_constants in Hr.
+  replace (next_is_sep C_LBRACE (print_range r sa sb ++ rest)) with (false, print_range r sa sb ++ rest) in Hr
+    by (destruct r as [[lo hi] e]; reflexivity).
+  cbn [pbind] in Hr.
+  destruct (next_is_sep C_LPAREN (print_range r sa sb ++ rest)) as [b r1].
+  destruct b.
+  - revert Hr.
+    repeat match goal with
+           | |- context [pbind ?x _] => destruct x as [? | ? ? | ? |]; cbn [pbind]; try discriminate
+           | |- context [let (_, _) := ?x in _] => destruct x
+           end; try discriminate; intros Hr.
+    all: try (inversion Hr; subst; reflexivity).
+    all: repeat match goal with
+                | H : match ?x with _ => _ end = _ |- _ => destruct x; try discriminate
+                end; try (inversion Hr; subst; reflexivity).
+  - inversion Hr; subst. reflexivity.
+Qed.
+
+(* ---------- totality of the loop-free productions and of the token-consuming loops (C14) ---------- *)
+
+Definition safe {A : Type} (r : pres A) : Prop :=
+  match r with POk _ | PErr _ _ => True | PPanic _ | POutOfFuel => False end.
+
+Lemma safe_bind : forall (A B : Type) (r : pres A) (f : A -> pres B),
+  safe r -> (forall a, r = POk a -> safe (f a)) -> safe (pbind r f).
+Proof. intros A B [a | k t | p |] f H Hf; cbn [pbind safe] in *; auto. Qed.
+
+Lemma safe_next_or_err : forall ts, safe (next_or_err ts).
+Proof. destruct ts; exact I. Qed.
+Lemma safe_next_text_or_err : forall ts, safe (next_text_or_err ts).
+Proof. destruct ts as [|[|] ?]; exact I. Qed.
+Lemma safe_next_text_eq : forall kw ts, safe (next_text_eq_ic_or_err kw ts).
+Proof. intros kw [|t r]; cbn; [exact I | destruct (eq_text_ic t kw); exact I]. Qed.
+Lemma safe_next_if_sep : forall c ts, safe (next_if_sep c ts).
+Proof. intros c [|t r]; cbn; [exact I | destruct (eq_separator t c); exact I]. Qed.
+Lemma safe_next_sep_or_err : forall c ts, safe (next_sep_or_err c ts).
+Proof.
+  intros c ts. unfold next_sep_or_err. apply safe_bind; [apply safe_next_if_sep | intros [? ?] _; exact I].
+Qed.
+Lemma safe_three_dots : forall ts, safe (three_dots ts).
+Proof.
+  intros ts. unfold three_dots. repeat (apply safe_bind; [apply safe_next_sep_or_err | intros ? _]).
+  apply safe_next_sep_or_err.
+Qed.
+Lemma safe_parse_tag_number : forall t, safe (parse_tag_number t).
+Proof. intros t. unfold parse_tag_number. destruct (tok_text t) as [s|]; [destruct (parse_u64 s)|]; exact I. Qed.
+
+Ltac safe_step :=
+  first
+    [ exact I
+    | apply safe_next_or_err | apply safe_next_text_or_err | apply safe_next_text_eq | apply safe_next_if_sep
+    | apply safe_next_sep_or_err | apply safe_three_dots | apply safe_parse_tag_number
+    | apply safe_bind; [| let a := fresh "a" in intros a _]
+    | match goal with
+      | |- safe (if ?b then _ else _) => destruct b
+      | |- safe (let (_, _) := ?x in _) => destruct x
+      | |- safe (match ?x with _ => _ end) => destruct x
+      end ].
+
+Lemma safe_read_tag : forall ts, safe (read_tag ts).
+Proof. intros ts. unfold read_tag. repeat safe_step. Qed.
+
+Lemma safe_next_with_opt_tag : forall ts, safe (next_with_opt_tag ts).
+Proof.
+  intros ts. unfold next_with_opt_tag.
+  apply safe_bind; [apply safe_next_or_err | intros [t r] _].
+  destruct (eq_separator t C_LBRACKET); [|exact I].
+  apply safe_bind; [apply safe_read_tag | intros [tag r1] _].
+  repeat safe_step.
+Qed.
+
+Lemma safe_read_size : forall ts, safe (read_size ts).
+Proof. intros ts. unfold read_size. repeat safe_step. Qed.
+
+Lemma safe_maybe_read_size : forall ts, safe (maybe_read_size ts).
+Proof.
+  intros ts. unfold maybe_read_size. destruct (next_is_sep C_LPAREN ts) as [b r]. destruct b.
+  - apply safe_bind; [apply safe_read_size | intros [s r1] _]. repeat safe_step.
+  - destruct (peek_is_text_ic (KW "SIZE") ts); [apply safe_read_size | exact I].
+Qed.
+
+(* the helpers consume tokens: lengths of what is left *)
+Lemma next_or_err_len : forall ts t r, next_or_err ts = POk (t, r) -> (length r < length ts)%nat.
+Proof. intros [|x l] t r H; inversion H; subst; simpl; lia. Qed.
+Lemma next_text_or_err_len : forall ts s r, next_text_or_err ts = POk (s, r) -> (length r < length ts)%nat.
+Proof. intros [|[? ? s0|? ? ?] l] s r H; inversion H; subst; simpl; lia. Qed.
+Lemma next_sep_or_err_len : forall c ts r, next_sep_or_err c ts = POk r -> (length r < length ts)%nat.
+Proof.
+  intros c [|t l] r H; [discriminate|]. unfold next_sep_or_err, next_if_sep in H.
+  destruct (eq_separator t c); inversion H; subst; simpl; lia.
+Qed.
+Lemma next_is_sep_len : forall c ts b r, next_is_sep c ts = (b, r) -> (length r <= length ts)%nat.
+Proof.
+  intros c [|t l] b r H; unfold next_is_sep in H; [inversion H; subst; simpl; lia|].
+  destruct (eq_separator t c); inversion H; subst; simpl; lia.
+Qed.
+
+Lemma safe_read_oid_loop : forall fuel ts acc, (length ts < fuel)%nat -> safe (read_oid_loop fuel ts acc).
+Proof.
+  induction fuel as [|fuel IH]; intros ts acc Hl; [lia|].
+  cbn [read_oid_loop]. destruct ts as [|t r]; [exact I|]. cbn [length] in Hl.
+  destruct (eq_separator t C_RBRACE); [exact I|].
+  destruct t as [l c ident | l c ch]; [|exact I].
+  destruct (forallb is_numeric ident).
+  - destruct (parse_u64 ident); [apply IH; lia | exact I].
+  - destruct (next_is_sep C_LPAREN r) as [b r1] eqn:E1. apply next_is_sep_len in E1. destruct b.
+    + apply safe_bind; [apply safe_next_text_or_err | intros [txt r2] E2]. apply next_text_or_err_len in E2.
+      destruct (parse_u64 txt); [|exact I].
+      apply safe_bind; [apply safe_next_sep_or_err | intros r3 E3]. apply next_sep_or_err_len in E3.
+      apply IH. lia.
+    + apply IH. lia.
+Qed.
+
+Lemma safe_read_oid : forall ts, safe (read_oid ts).
+Proof. intros ts. unfold read_oid. apply safe_read_oid_loop. lia. Qed.
+
+Lemma read_oid_loop_len : forall fuel ts acc o r, read_oid_loop fuel ts acc = POk (o, r) -> (length r <= length ts)%nat.
+Proof.
+  induction fuel as [|fuel IH]; intros ts acc o r H; [discriminate|].
+  cbn [read_oid_loop] in H. destruct ts as [|t l]; [inversion H; subst; simpl; lia|].
+  destruct (eq_separator t C_RBRACE); [inversion H; subst; simpl; lia|].
+  destruct t as [ln c ident | ln c ch]; [|discriminate].
+  destruct (forallb is_numeric ident).
+  - destruct (parse_u64 ident); [|discriminate]. apply IH in H. simpl; lia.
+  - destruct (next_is_sep C_LPAREN l) as [b r1] eqn:E1. apply next_is_sep_len in E1. destruct b.
+    + destruct (next_text_or_err r1) as [[txt r2] | | |] eqn:E2; cbn [pbind] in H; try discriminate.
+      apply next_text_or_err_len in E2. destruct (parse_u64 txt); [|discriminate].
+      destruct (next_sep_or_err C_RPAREN r2) as [r3 | | |] eqn:E3; cbn [pbind] in H; try discriminate.
+      apply next_sep_or_err_len in E3. apply IH in H. simpl; lia.
+    + apply IH in H. simpl; lia.
+Qed.
+
+Lemma safe_maybe_read_oid : forall ts, safe (maybe_read_oid ts).
+Proof.
+  intros ts. unfold maybe_read_oid. destruct (next_is_sep C_LBRACE ts) as [b r]. destruct b; [|exact I].
+  apply safe_bind; [apply safe_read_oid | intros [o r'] _; exact I].
+Qed.
+
+Lemma maybe_read_oid_len : forall ts o r, maybe_read_oid ts = POk (o, r) -> (length r <= length ts)%nat.
+Proof.
+  intros ts o r H. unfold maybe_read_oid in H. destruct (next_is_sep C_LBRACE ts) as [b r0] eqn:E.
+  apply next_is_sep_len in E. destruct b; [|inversion H; subst; lia].
+  destruct (read_oid r0) as [[o' r'] | | |] eqn:E2; cbn [pbind] in H; try discriminate.
+  inversion H; subst. unfold read_oid in E2. apply read_oid_loop_len in E2. lia.
+Qed.
+
+Lemma safe_read_imports_loop : forall fuel ts what acc,
+  (length ts < fuel)%nat -> safe (read_imports_loop fuel ts what acc).
+Proof.
+  induction fuel as [|fuel IH]; intros ts what acc Hl; [lia|].
+  cbn [read_imports_loop]. destruct ts as [|t r]; [exact I|]. cbn [length] in Hl.
+  destruct (eq_separator t C_SEMI); [exact I|].
+  destruct t as [l c text | l c ch]; [|exact I].
+  apply safe_bind; [apply safe_next_or_err | intros [t2 r2] E2]. apply next_or_err_len in E2.
+  destruct (eq_separator t2 C_COMMA); [apply IH; lia|].
+  destruct (eq_text_ic t2 (KW "FROM")); [|apply IH; lia].
+  apply safe_bind; [apply safe_next_text_or_err | intros [from r3] E3]. apply next_text_or_err_len in E3.
+  apply safe_bind; [apply safe_maybe_read_oid | intros [oid r4] E4]. apply maybe_read_oid_len in E4.
+  apply IH. lia.
+Qed.
+
+Lemma safe_read_imports : forall ts, safe (read_imports ts).
+Proof. intros ts. unfold read_imports. apply safe_read_imports_loop. lia. Qed.
+
+Lemma safe_loop_ctrl : forall t, safe (loop_ctrl t).
+Proof. intros t. unfold loop_ctrl. repeat safe_step. Qed.
+
+Lemma safe_read_enumerated_loop : forall fuel ts acc ext,
+  (length ts < fuel)%nat -> safe (read_enumerated_loop fuel ts acc ext).
+Proof.
+  induction fuel as [|fuel IH]; intros ts acc ext Hl; [lia|].
+  cbn [read_enumerated_loop].
+  destruct (next_if_sep C_DOT ts) as [[marker r] | k tk | p |] eqn:Em.
+  - assert (Hr : (length r < length ts)%nat).
+    { destruct ts as [|t l]; [discriminate|]. unfold next_if_sep in Em.
+      destruct (eq_separator t C_DOT); inversion Em; subst; simpl; lia. }
+    destruct acc as [|a acc']; [exact I|]. destruct (negb (is_none_N ext)); [exact I|].
+    apply safe_bind; [apply safe_next_sep_or_err | intros r1 E1]. apply next_sep_or_err_len in E1.
+    apply safe_bind; [apply safe_next_sep_or_err | intros r2 E2]. apply next_sep_or_err_len in E2.
+    apply safe_bind; [apply safe_next_or_err | intros [t r3] E3]. apply next_or_err_len in E3.
+    apply safe_bind; [apply safe_loop_ctrl | intros cont _].
+    destruct cont; [apply IH; lia | exact I].
+  - apply safe_bind; [apply safe_next_text_or_err | intros [name r] E0]. apply next_text_or_err_len in E0.
+    apply safe_bind; [apply safe_next_or_err | intros [t r1] E1]. apply next_or_err_len in E1.
+    destruct (eq_separator t C_COMMA || eq_separator t C_RBRACE).
+    + apply safe_bind; [apply safe_loop_ctrl | intros cont _]. destruct cont; [apply IH; lia | exact I].
+    + destruct (eq_separator t C_LPAREN).
+      * apply safe_bind; [apply safe_next_or_err | intros [nt r2] E2]. apply next_or_err_len in E2.
+        destruct (match tok_text nt with Some s => parse_u64 s | None => None end); [|exact I].
+        apply safe_bind; [apply safe_next_sep_or_err | intros r3 E3]. apply next_sep_or_err_len in E3.
+        apply safe_bind; [apply safe_next_or_err | intros [t' r4] E4]. apply next_or_err_len in E4.
+        apply safe_bind; [apply safe_loop_ctrl | intros cont _]. destruct cont; [apply IH; lia | exact I].
+      * apply safe_bind; [apply safe_loop_ctrl | intros cont _]. destruct cont; [apply IH; lia | exact I].
+  - exfalso. pose proof (safe_next_if_sep C_DOT ts) as S. rewrite Em in S. exact S.
+  - exfalso. pose proof (safe_next_if_sep C_DOT ts) as S. rewrite Em in S. exact S.
+Qed.
+
+Lemma safe_read_enumerated : forall ts, safe (read_enumerated ts).
+Proof.
+  intros ts. unfold read_enumerated.
+  apply safe_bind; [apply safe_next_sep_or_err | intros r _]. apply safe_read_enumerated_loop. lia.
+Qed.
